@@ -303,7 +303,16 @@ class Ctx:
             obs[str(culprit["id"])] = o
             pending = pending[1:]
         self.evaluations += len(cases)
-        return [obs[str(i)] for i in ids]
+        # (a case may observe further steps under ids of their own: a "then" case's second render)
+        wanted = set(map(str, ids))
+        extras = [o for k, o in obs.items() if k not in wanted]
+        # a missing second step is an infrastructure failure, not a pass
+        for c in cases:
+            t = c.get("then")
+            if t and str(t.get("id")) not in obs and obs[str(c["id"])].get("outcome") not in ("skip", "fatal", "timeout", "panic"):
+                raise Infra("no observation for the second step %s" % t.get("id"))
+        self.evaluations += len(extras)
+        return [obs[str(i)] for i in ids] + extras
 
     # -- trace validation -------------------------------------------------------
     def validate(self, observations, module="TraceRender", cfg=None, chunk=4000, jobs=None,
